@@ -211,6 +211,8 @@ def model_line(res: dict) -> tuple[str, str]:
         reached = res["kind"] == "raise" and remote and any(True for _ in [0])
         kind = ("keyboard" if (res["kind"] == "kbint" and res.get("fault_reached")) else
                 "remote-exception" if (remote and res["kind"] == "raise" and res.get("fault_reached")) else "ok")
+    elif res["kind"] == "sysexit" and res.get("fault_reached"):
+        kind = "systemexit"
     else:
         kind = "other"
     stopped = [i for i in range(res["n_sims"]) if res["finalize_counts"][f"S{i}"] >= 1 or
